@@ -146,7 +146,7 @@ def gen_stream(rng, max_notes=120):
     cols = rng.randint(1, 6)
     rows = rng.choice([2, 4, 8, 16, 32, 64])
     dens = rng.choice([[1], [1, 2], [1, 2, 4], [3, 4], [48], [64], [96, 192], [256], [5, 7], [384], [48, 64]])
-    palette = rng.choice(["123M", "1234M", "1234AFKLM", "23", "243", "12L3", "1234AFKLM"])
+    palette = rng.choice(["123M", "1234M", "1234AFKLM", "23", "243", "12L3", "1234AFKLM", "2K3", "24K33", "2A3F", "2L3M"])
     weights = rng.choice([0.15, 0.3, 0.6])
     from fractions import Fraction
     out = []
